@@ -93,14 +93,14 @@ HEADS = ["Option<", "Result<", "Vec<", "HashMap<", "BTreeMap<", "HashSet<", "BTr
 
 def type_strings(tier, rng):
     out = []
-    alpha = ["A", "<", ">", ",", "(", ")", "&", " ", E2, E3, E4]
+    alpha = ["A", "<", ">", ",", "(", ")", "[", "]", "&", " ", E2, E3, E4]
     if tier == "quick":
         out.extend(words(alpha, 4))
-        out.extend(words(["A", "<", ">", ",", "(", ")", E2, E3], 5, 5))
+        out.extend(words(["A", "<", ">", ",", "(", ")", "[", E2, E3], 5, 5))
     else:
         out.extend(words(alpha, 5))
-        out.extend(words(["A", "<", ">", ",", "(", ")", E2, E3], 6, 6))
-    small = list(words(["A", "<", ">", ",", ")", " ", E2, E3], 3 if tier == "quick" else 4))
+        out.extend(words(["A", "<", ">", ",", "(", ")", "]", E2, E3], 6, 6))
+    small = list(words(["A", "<", ">", ",", ")", "[", " ", E2, E3], 3 if tier == "quick" else 4))
     for h in HEADS:
         for w in small:
             out.append(h + w)
@@ -163,6 +163,13 @@ def prefix_strings(tier, rng):
     for m in [" | null", " | undefined", "Record<", "Map<", "types.", "[]"]:
         for i in range(len(m) + 1):
             out.extend([m[:i], m[i:], "X" + m[i:], E2 + m[i:], m[:i] + E2])
+    return out
+
+
+def key_strings(tier, rng):
+    alpha = ["a", "_", "$", "1", "-", " ", '"', "\\", "\n", E2, E3, E4]
+    out = list(words(alpha, 3 if tier == "quick" else 4))
+    out += ["userName", "full-name", "a b", "", "type", "1a", "été", "na\"me", "back\\slash", "tab\tx", "cr\rx", "x|y", "中文", "a.b", "[x]"]
     return out
 
 
